@@ -12,7 +12,8 @@ CONSTANTS
   PVals = {1}
   LVals = {0, 1}
   ForbSets = {{}}
-  Ctls = {"c1", "c2", "c3"}
+  Layouts = {11}
 INVARIANT Consistent
 PROPERTY LimitsRespected
+PROPERTY ControlFrame
 CHECK_DEADLOCK FALSE
